@@ -334,7 +334,7 @@ class RulesOnOff(NativeCase):
         from specs import evmexec, speceval
         from . import blocks as corpus, pipeline
         from .common import plain_names, cleanup_tmp
-        shapes = corpus.rule_shape_blocks(1 if tier == 'quick' else 2)
+        shapes = corpus.rule_shape_blocks(1 if tier == 'quick' else 2) + corpus.shared_rule_shape_blocks()
         n_states = 10 if tier == 'quick' else 30
         n = 0
         for b in shapes:
